@@ -217,20 +217,34 @@ Lemma cfg_with_prov w sd p : w_cfg (with_prov w sd p) = w_cfg w. Proof. destruct
 Lemma x_with_prov w sd p : w_x (with_prov w sd p) = w_x w. Proof. destruct sd; reflexivity. Qed.
 
 (* ------------------------------------------------------------------ the domain ghost of fragment F1 *)
+(* user-made objects have pairwise different leaf names, across both sides (names are never reused) *)
+Definition Uniq (g : ghost) (w : world) : Prop :=
+  forall sd k cs sd' k' cs' ob ob', g_get k (g_of g sd) = Some cs -> g_get k' (g_of g sd') = Some cs' ->
+    obj_at w sd k = Some ob -> obj_at w sd' k' = Some ob' ->
+    leaf (ProvModel.o_path ob) = leaf (ProvModel.o_path ob') -> sd = sd' /\ k = k'.
+
+Lemma Uniq_frame g w w' : OwnFrame g w w' -> Uniq g w -> Uniq g w'.
+Proof.
+  intros O U sd k cs sd' k' cs' ob ob' Hg Hg' Ho Ho' Hl. rewrite (O sd k cs Hg) in Ho. rewrite (O sd' k' cs' Hg') in Ho'.
+  apply (U sd k cs sd' k' cs' ob ob' Hg Hg' Ho Ho' Hl).
+Qed.
+
 Record Dom (used : list ProvModel.name) (lvL lvR : list (ProvModel.path * list N)) (g : ghost) (w : world) : Prop := {
   d_live : forall (sd : bool) rel cs, live_get rel (if sd then lvR else lvL) = Some cs ->
      exists n k ob, rel = [n] /\ obj_at w sd k = Some ob /\ ProvModel.o_exists ob = true /\
                     ProvModel.o_path ob = [root_name sd; n] /\ g_get k (g_of g sd) = Some cs;
   d_used : forall sd k cs, g_get k (g_of g sd) = Some cs ->
-     exists ob n, obj_at w sd k = Some ob /\ ProvModel.o_path ob = [root_name sd; n] /\ name_mem n used = true
+     exists ob n, obj_at w sd k = Some ob /\ ProvModel.o_path ob = [root_name sd; n] /\ name_mem n used = true;
+  d_uniq : Uniq g w
 }.
 
 Lemma Dom_frame used lvL lvR g w w' : OwnFrame g w w' -> Dom used lvL lvR g w -> Dom used lvL lvR g w'.
 Proof.
-  intros O [A B]. constructor.
+  intros O [A B C]. constructor.
   - intros sd rel cs H. destruct (A sd rel cs H) as (n & k & ob & X1 & X2 & X3 & X4 & X5).
     exists n, k, ob. rewrite (O sd k cs X5). auto.
   - intros sd k cs H. destruct (B sd k cs H) as (ob & n & X1 & X2 & X3). exists ob, n. rewrite (O sd k cs H). auto.
+  - apply (Uniq_frame g w w' O C).
 Qed.
 
 (* every live object's leaf name has been used by a user *)
@@ -373,6 +387,23 @@ Proof.
            exists ob0, n0. rewrite (Hobj k Hnk). split; [exact X1|]. split; [exact X2|apply name_mem_cons; exact X3].
       * rewrite (other_side _ _ Hne) in *. rewrite Hgo in Hg0. destruct (d_used _ _ _ _ _ D (negb sd) k cs Hg0) as (ob0 & n0 & X1 & X2 & X3).
         exists ob0, n0. rewrite Hobjo. split; [exact X1|]. split; [exact X2|apply name_mem_cons; exact X3].
+    + intros sd0 k0 cs0 sd1 k1 cs1 ob0 ob1 Hg0 Hg1 Ho0 Ho1 Hleaf.
+      assert (Hcls: forall sdx kx csx obx, g_get kx (g_of g' sdx) = Some csx -> obj_at w' sdx kx = Some obx ->
+                (sdx = sd /\ kx = kt /\ obx = o) \/
+                (g_get kx (g_of g sdx) = Some csx /\ obj_at w sdx kx = Some obx /\ exists nx, ProvModel.o_path obx = [root_name sdx; nx] /\ name_mem nx used = true)).
+      { intros sdx kx csx obx Hgx Hox. destruct (Bool.bool_dec sdx sd) as [->|Hne].
+        - destruct (Nat.eq_dec kx kt) as [->|Hnk]; [left; split; [reflexivity|split; [reflexivity|congruence]]|].
+          right. rewrite (Hgt kx Hnk) in Hgx. rewrite (Hobj kx Hnk) in Hox. split; [exact Hgx|split; [exact Hox|]].
+          destruct (d_used _ _ _ _ _ D sd kx csx Hgx) as (obz & nz & Z1 & Z2 & Z3). assert (obz = obx) by congruence. subst obz. eauto.
+        - rewrite (other_side _ _ Hne) in *. rewrite Hgo in Hgx. rewrite Hobjo in Hox. right. split; [exact Hgx|split; [exact Hox|]].
+          destruct (d_used _ _ _ _ _ D (negb sd) kx csx Hgx) as (obz & nz & Z1 & Z2 & Z3). assert (obz = obx) by congruence. subst obz. eauto. }
+      assert (Hlo: leaf (ProvModel.o_path o) = n) by reflexivity.
+      destruct (Hcls _ _ _ _ Hg0 Ho0) as [(A1 & A2 & A3)|(A1 & A2 & (n0 & A3 & A4))];
+        destruct (Hcls _ _ _ _ Hg1 Ho1) as [(B1 & B2 & B3)|(B1 & B2 & (n1 & B3 & B4))].
+      * split; congruence.
+      * exfalso. subst ob0. rewrite Hlo, B3 in Hleaf. unfold leaf in Hleaf. simpl in Hleaf. subst n1. congruence.
+      * exfalso. subst ob1. rewrite Hlo, A3 in Hleaf. unfold leaf in Hleaf. simpl in Hleaf. subst n0. congruence.
+      * apply (d_uniq _ _ _ _ _ D sd0 k0 cs0 sd1 k1 cs1 ob0 ob1 A1 B1 A2 B2 Hleaf).
 Qed.
 
 (* ------------------------------------------------------------------ user: write to / delete an own file *)
@@ -500,6 +531,16 @@ Proof.
         exists ob0, n0. rewrite (Hobj k0 Hnk). auto.
     + rewrite (other_side _ _ Hne) in *. rewrite Hgo in Hg0. destruct (d_used _ _ _ _ _ D (negb sd) k0 cs0 Hg0) as (ob0 & n0 & X1 & X2 & X3).
       exists ob0, n0. rewrite Hobjo. auto.
+  - intros sd0 k0 cs0 sd1 k1 cs1 ob0 ob1 Hg0 Hg1 Ho0 Ho1 Hleaf.
+    assert (Hold: forall sdx kx csx obx, g_get kx (g_of g' sdx) = Some csx -> obj_at w' sdx kx = Some obx ->
+              exists csz obz, g_get kx (g_of g sdx) = Some csz /\ obj_at w sdx kx = Some obz /\ ProvModel.o_path obz = ProvModel.o_path obx).
+    { intros sdx kx csx obx Hgx Hox. destruct (Bool.bool_dec sdx sd) as [->|Hne].
+      - destruct (Nat.eq_dec kx k) as [->|Hnk].
+        + exists cs, ob. split; [exact Hg|]. split; [exact Hob|]. assert (obx = ob') by congruence. subst obx. reflexivity.
+        + exists csx, obx. rewrite <- (Hgt kx Hnk), <- (Hobj kx Hnk). auto.
+      - rewrite (other_side _ _ Hne) in *. exists csx, obx. rewrite <- Hgo, <- Hobjo. auto. }
+    destruct (Hold _ _ _ _ Hg0 Ho0) as (c0 & z0 & X1 & X2 & X3). destruct (Hold _ _ _ _ Hg1 Ho1) as (c1 & z1 & Y1 & Y2 & Y3).
+    apply (d_uniq _ _ _ _ _ D sd0 k0 c0 sd1 k1 c1 z0 z1 X1 Y1 X2 Y2). rewrite X3, Y3. exact Hleaf.
 Qed.
 
 Lemma user_delete_pres used lvL lvR g w (sd : bool) rel cs :
@@ -552,6 +593,16 @@ Proof.
         exists ob0, n0. rewrite (Hobj k0 Hnk). auto.
     + rewrite (other_side _ _ Hne) in *. rewrite Hgo in Hg0. destruct (d_used _ _ _ _ _ D (negb sd) k0 cs0 Hg0) as (ob0 & n0 & X1 & X2 & X3).
       exists ob0, n0. rewrite Hobjo. auto.
+  - intros sd0 k0 cs0 sd1 k1 cs1 ob0 ob1 Hg0 Hg1 Ho0 Ho1 Hleaf.
+    assert (Hold: forall sdx kx csx obx, g_get kx (g_of g' sdx) = Some csx -> obj_at w' sdx kx = Some obx ->
+              exists csz obz, g_get kx (g_of g sdx) = Some csz /\ obj_at w sdx kx = Some obz /\ ProvModel.o_path obz = ProvModel.o_path obx).
+    { intros sdx kx csx obx Hgx Hox. destruct (Bool.bool_dec sdx sd) as [->|Hne].
+      - destruct (Nat.eq_dec kx k) as [->|Hnk].
+        + exists cs, ob. split; [exact Hg|]. split; [exact Hob|]. assert (obx = ob') by congruence. subst obx. reflexivity.
+        + exists csx, obx. rewrite <- (Hgt kx Hnk), <- (Hobj kx Hnk). auto.
+      - rewrite (other_side _ _ Hne) in *. exists csx, obx. rewrite <- Hgo, <- Hobjo. auto. }
+    destruct (Hold _ _ _ _ Hg0 Ho0) as (c0 & z0 & X1 & X2 & X3). destruct (Hold _ _ _ _ Hg1 Ho1) as (c1 & z1 & Y1 & Y2 & Y3).
+    apply (d_uniq _ _ _ _ _ D sd0 k0 c0 sd1 k1 c1 z0 z1 X1 Y1 X2 Y2). rewrite X3, Y3. exact Hleaf.
 Qed.
 
 (* ------------------------------------------------------------------ runs *)
@@ -568,7 +619,10 @@ Lemma NoTmp_init c t0 lg0 : NoTmp (world_init c t0 lg0).
 Proof. intros e sd. unfold getx, world_init. cbn [w_x]. destruct e as [|[|e]]; destruct sd; try reflexivity; destruct e; reflexivity. Qed.
 
 Lemma Dom_init c t0 lg0 : Dom [] [] [] g0 (world_init c t0 lg0).
-Proof. constructor; [intros sd rel cs H; destruct sd; discriminate|intros sd k cs H; destruct sd; discriminate]. Qed.
+Proof.
+  constructor; [intros sd rel cs H; destruct sd; discriminate|intros sd k cs H; destruct sd; discriminate|].
+  intros sd k cs sd' k' cs' ob ob' H. destruct sd; discriminate.
+Qed.
 
 Theorem run_inv : forall acts used lvL lvR g w w',
   Inv g w -> NoTmp w -> Dom used lvL lvR g w ->
